@@ -452,3 +452,5 @@ def run(report, repo):
   report.guard(r5_progress, report, repo)
   from sa.rules import extra4  # pylint: disable=g-import-not-at-top
   report.guard(extra4.progress_shield_in_loop, report, repo, 'C16-R6')
+  from sa.rules import extra4 as _x4  # pylint: disable=g-import-not-at-top
+  report.guard(_x4.errors_do_not_reformat, report, repo, 'C16-R7')
